@@ -36,6 +36,18 @@ META = {
                 tech="exhaustive enumeration of all timer operation sequences up to a depth against a start/stop model",
                 text="All sequences (depth 5/7) of advance/rewind/start/restart on a real Tymer are compared float-exactly with a model written from the statement; all sequences (depth 6/8) of clock jumps/reads/starts on a real MonoTimer (retro True/False) are checked for monotone elapsed and sticky expired.",
                 note="Fake clock installed as hio.help.timing.time; dyadic values keep MonoTimer arithmetic exact."),
+    "C09": dict(cat="model_checking", eng="E1 over FakeNet", ref="3 (TCP group), 2 (FakeNet)",
+                tech="stateless deviation-bounded exploration of kernel answers (partial send/short read/would-block/TLS want) on real tcp Client/Server over an in-memory kernel model",
+                text="Real tcp Client/ClientTls and Server/ServerTls exchange scripted payloads over FakeNet; every execution with up to 3 (quick) / 5 (thorough) non-default kernel answers is run; after every service round received bytes must be a prefix of transmitted bytes in both directions, wire logs must equal the bytes the kernel accepted/delivered, and healthy servicing must deliver everything.",
+                note="Trusted: FakeNet (its deterministic behaviour is compared call by call with real loopback sockets by vf/env/fakenet_conf.py, reported in evidence); TLS is a pass-through raising OpenSSL's want-read/want-write."),
+    "C10": dict(cat="fault_enumeration", eng="E1 over FakeNet", ref="3 (TCP group)",
+                tech="exhaustive single (quick) / double (thorough) fault placement: every connection-level errno, TLS EOF, handshake abort at every send/recv/handshake call, peer close/RST/half-close at every step boundary",
+                text="Server side with victim + sibling connection, client side against a scripted peer, plain and TLS: service() must not raise, the victim must end cut off / aborted / removed-and-closed, the sibling's echo must complete.",
+                note="'marked' accepts removal with the socket closed. Generic TLS protocol errors (certificate failure) are outside the property."),
+    "C11": dict(cat="model_checking", eng="E2 BFS over FakeNet", ref="3 (TCP group)",
+                tech="explicit-state BFS over connect/handshake-pending/replace/reset/reopen/close event histories with socket-table invariant",
+                text="BFS to depth 5/7 over server and client event histories (plain and TLS); after Server.close()/reopen() every socket it created or accepted must be closed; a client never leaves an earlier socket open.",
+                note="Openness is observed on the fake sockets (explicit close() calls), never through garbage collection."),
     "C26": dict(cat="exploration", eng="E3 full enumeration", ref="3 (C26)",
                 tech="exhaustive enumeration of small input domains against arithmetic written from the statement",
                 text="Every integer below 2^18/2^22 x lengths 1..6 plus power-of-64 boundaries; every Base64 string up to length 3/4; every byte string up to 2/3 bytes x admissible sextet counts.",
